@@ -403,7 +403,7 @@ pub fn c09(args: &Args) {
     }
     c09_boundary(&mut report, args);
     let seed = args.seed;
-    let n = args.pick(60_000, 4_000_000);
+    let n = args.pick(600_000, 10_000_000);
     run_cases(&mut report, n, args.threads, Duration::from_secs(args.pick(60, 1200)), |i| c09_random_case(seed, i));
     report.floor("sends_ok", 1000);
     report.floor("recvs_accepted", 1000);
